@@ -19,7 +19,18 @@ Sessions (d): the application closes the connection — UdpClient.disconnect() o
 ServerClientConnection.disconnect() — while best-effort / guaranteed messages are waiting to be re-sent
 (their acks were lost); the closing datagrams (DISCONNECT + the re-sent messages) and everything either
 side emits afterwards (further send() calls, further disconnect() calls, late datagrams arriving after
-the terminal state) are judged by the same oracle and replayed on the model."""
+the terminal state) are judged by the same oracle and replayed on the model.
+Sessions (e), implementation only (hold_world): the moment between BUILDING a packet and SEALING it.  The real server
+loop (stepped, harness/srvx.py) behind the fronts where a built Packet object is held before Packet.to_bytes runs:
+TwistedServer.sendPackets / ThreadedServer (batch handed to reactor.callFromThread; a stub reactor queues the calls and
+the harness, playing the reactor thread, runs them 0..k ticks later, also after the server thread has exited) and
+UdpServerThread.send (the tick's batch of all clients is complete before the first packet is sealed).  Real handshakes,
+several clients, server-side sends on consecutive ticks (handler sends, echoes, retried and fragmented messages,
+keep-alives, kicks).  Oracle on the bytes the transport was given: per session key no two datagrams share bytes 0..11;
+every datagram (except SERVER_HELLO) opens with AESGCM under the key the packet was handed over with, with its own 20
+header bytes as AAD, to exactly the plaintext the packet had at the hand-over; its header is the header the packet had
+at the hand-over (so it carries the sequence number assigned when it was built); per destination the sequence numbers
+written are pairwise distinct and increasing; no application tag in clear."""
 import re, struct
 from harness import lib, netsim, connsim as S
 
@@ -257,9 +268,152 @@ def session_wrap(run, rng, builds, seq0, label):
     return net, diffs, {"seq0": seq0, "builds": builds}
 
 
+HOLD_RULE = ("hold worlds (implementation only): 1-3 real clients handshake with the stepped real server behind twisted-reactor / "
+             "threaded-reactor (stub reactor lagging 0..4 ticks at random, flushing after shutdown) and behind the directly sending "
+             "fronts; the handler sends to every client on consecutive ticks (all retry modes, fragments), echoes, kicks; "
+             "non-trivial = reactor world in which >= 10 packets were sealed at least one tick after they were built and >= 2 "
+             "packets for one client waited in the queue together")
+
+
+def hold_oracle(run, sim, label, info):
+    """the property on what the transport was given, against the photograph taken when the server thread let go of the packet"""
+    from cryptography.hazmat.primitives.ciphers.aead import AESGCM
+    nonces, last_seq = {}, {}
+    held, sealed = 0, 0
+    for idx, w in enumerate(sim.written):
+        d, addr, snap = w["data"], w["addr"], w["snap"]
+        case = dict(info, session=label, index=idx, addr=list(addr), built_in_step=w["step_built"], written_in_step=w["step_written"],
+                    wire_header=S.unpack_header(d) if len(d) >= 20 else None)
+        if TAG.search(d):
+            run.oracle_violation("app-bytes-in-clear", dict(case, datagram=d[:64]), "wire")
+        if snap is None:
+            run.oracle_violation("datagram written that was not in the batch handed over", case, "twisted.py:sendPacketsUnsafe / server.py:send")
+            continue
+        case["header_when_built"] = snap["hdr"]
+        if tuple(snap["addr"]) != tuple(addr):
+            run.oracle_violation("datagram written to another destination than the packet was built for", case, "twisted.py:sendPacketsUnsafe")
+            continue
+        if w["step_written"] > w["step_built"]:
+            held += 1
+        if len(d) < 20 or S.unpack_header(d) != snap["hdr"]:
+            run.oracle_violation("header-changed-between-build-and-seal", case, "connection.py:_build_packet_impl / Packet.to_bytes")
+        key = snap["key"]
+        if d[12] == 2 or snap["hdr"][4] == 2:
+            continue                # the signed server hello is the documented exception
+        if key is None:
+            run.oracle_violation("clear-non-hello", case, "Packet.to_bytes")
+            continue
+        ln = struct.unpack(">H", d[13:15])[0]
+        try:
+            plain = AESGCM(key).decrypt(d[:12], d[20:], d[:20])
+            ok = len(d) == 20 + ln + 16
+        except Exception:     # noqa
+            plain, ok = None, False
+        if not ok:
+            run.oracle_violation("not-sealed-under-session-key", dict(case, len=len(d)), "Packet.to_bytes")
+        elif plain != snap["plain"]:
+            run.oracle_violation("plaintext-changed-between-build-and-seal", dict(case, sealed=plain[:40], built=snap["plain"][:40]),
+                                 "Packet.to_bytes")
+        else:
+            sealed += 1
+        k = (key, d[:12])
+        if k in nonces:
+            first = sim.written[nonces[k]]
+            run.oracle_violation("nonce-reuse", dict(case, nonce=d[:12], first_index=nonces[k], first_built_in_step=first["step_built"],
+                                                     same_plaintext=first["data"] == d), "_build_packet / twisted.py:sendPackets")
+        else:
+            nonces[k] = idx
+        seq = struct.unpack(">H", d[8:10])[0]
+        prev = last_seq.get((key, addr))
+        if prev is not None and not (1 <= (seq - prev) % 65535 < 32768):
+            run.oracle_violation("sequence numbers on the wire not increasing", dict(case, previous=prev, seq=seq), "_build_packet")
+        last_seq[(key, addr)] = seq
+    return held, sealed
+
+
+def hold_world(run, rng, idx, front):
+    from harness import srvsim as V, srvx as X
+    state = {"n": 0}
+
+    def policy(sim, n, ev):
+        acts = []
+        me = None
+        if ev[0] in (3, 4, 5):
+            for c in sim.ctxt.connections.values():
+                if sim.cid(c) == ev[1]:
+                    me = V.av(c.addr)
+        if ev[0] == 4 and me:
+            acts.append([1, me, b"echo:" + ev[3][:600], 0, -1])
+            if rng.random() < 0.03:
+                acts.append([0, me])
+        if ev[0] == 2 and rng.random() < 0.85:
+            for a in list(sim.ctxt.connections.keys()):
+                state["n"] += 1
+                L = rng.choice([0, 3, 3, 40, 40, 900, 2500])
+                acts.append([1, V.av(a), b"%08d|" % state["n"] + bytes(rng.randrange(256) for _ in range(L)), rng.choice([0, 0, 1, -1]), -1])
+        return acts, False
+    lag = rng.choice([0, 1, 2, 4])
+    busy_left = {"n": 0}
+
+    def reactor_busy(w):
+        if busy_left["n"] > 0:
+            busy_left["n"] -= 1
+            return True
+        if lag and rng.random() < 0.5:
+            busy_left["n"] = rng.randrange(0, lag)
+            return True
+        return False
+    reactor = front in X.REACTOR_FRONTS
+    w = X.WorldX(run, rng, cfg=rng.choice([(5 * T, 2 * T, 1536, T), (15360, 7680, 768, 7680)]), policy=policy, full=False,
+                 front=front, mtu=rng.choice([1500, 1500, 800]), hold_probe=not reactor, reactor_busy=reactor_busy if reactor else None)
+    sim = w.sim
+    info = {"front": front, "reactor_lag_ticks_up_to": lag if reactor else None}
+    try:
+        recs = [w.add_client(("10.3.%d.%d" % (idx % 200, i + 1), 5000 + i)) for i in range(rng.choice([1, 2, 3]))]
+        nsteps = rng.randrange(50, 90) * (2 if run.thorough() else 1)
+        for st in range(nsteps):
+            for rec in recs:
+                hc = rec["hc"]
+                if hc.status() == 2 and rng.random() < 0.3:
+                    hc.client.send(b"%08d|" % (9000000 + st) + bytes(rng.randrange(256) for _ in range(rng.choice([0, 5, 300]))),
+                                   retry=rng.choice([0, 1, -1]))
+            if not w.step(rng.choice([300, 300, 300, 600, 1500])):
+                break
+        w.finish()
+        if sim.internal:
+            raise RuntimeError("harness-internal problem: %s" % sim.internal[:3])
+        if sim.thread_exc is not None:
+            run.oracle_violation("server loop died", dict(info, session="hold%d" % idx, exception=repr(sim.thread_exc)[:160]), "server.py")
+        held, sealed = hold_oracle(run, sim, "hold%d" % idx, info)
+        queued_together = 0
+        by = {}
+        for wr in sim.written:
+            by.setdefault((wr["addr"], wr["step_written"]), set()).add(wr["step_built"])
+        queued_together = sum(1 for v in by.values() if len(v) >= 2)
+        run.count("hold_worlds")
+        run.count("hold_worlds_" + front)
+        run.count("hold_datagrams", len(sim.written))
+        run.count("hold_datagrams_sealed_a_tick_or_more_after_build", held)
+        run.count("hold_turns_sealing_packets_of_several_ticks_for_one_client", queued_together)
+        run.evaluations += len(sim.written)
+        if (reactor and held >= 10 and queued_together >= 2) or (not reactor and sealed >= 40):
+            run.nt(("hold", idx, front, len(sim.written), held))
+        if idx < 2:
+            run.sample({"session": "hold%d" % idx, "front": front, "lag": lag, "written": len(sim.written), "held": held,
+                        "first": [wr["snap"]["hdr"] for wr in sim.written[:3] if wr["snap"]]})
+    finally:
+        w.close()
+
+
 def run(run):
     rng = run.rng
     th = run.thorough()
+    from harness import srvx as X
+    fronts = list(X.REACTOR_FRONTS) * 3 + ["twisted-own", "twisted"]
+    with X.logging_enabled():
+        for i in range(64 if th else 16):
+            hold_world(run, rng, i, fronts[i % len(fronts)])
+    run.rules.append(HOLD_RULE)
     # sessions are generated lazily and the run stops generating once three of them disagree with the model:
     # on a broken tree every session disagrees and replaying all of them only costs time and memory
     plan = [("handshake", lambda i=i: session_handshake(run, rng, 60 if th else 40, "hs%d" % i)) for i in range(60 if th else 16)]
